@@ -186,6 +186,20 @@ def gen(seed, tier, extra=None):
         else:
             ops.append(['host', rng.choice(['date', 'aware', 'aware2', 'awareutc'])])
             n_dt += 1
+    # the process zone changing between two calls (an embedding application calling tzset): 20 % of the runs switch
+    # zone once or twice (and often back), and re-format datetimes that were already formatted under the old zone
+    rz = stream(seed, 'tz')
+    if rz.random() < 0.2:
+        creators = ('now', 'today', 'new', 'arith', 'host')
+        for z2 in [rz.choice(ZONES) for _ in range(rz.choice([1, 1, 2]))] + ([zone] if rz.random() < 0.5 else []):
+            pos = rz.randint(1, len(ops))
+            have = sum(1 for op in ops[:pos] if op[0] in creators)
+            extra_ops = [['zone', z2]]
+            if have:
+                formatted = [op[1] for op in ops[:pos] if op[0] == 'iso']
+                for _ in range(rz.randint(1, 3)):
+                    extra_ops.append(['iso', rz.choice(formatted) if formatted and rz.random() < 0.7 else rz.randrange(have)])
+            ops[pos:pos] = extra_ops
     return {'seed': seed, 'zone': zone, 'start_us': start_us, 'ops': ops, 'transitions': trans[:4]}
 
 
@@ -293,6 +307,8 @@ def build_model(plan):
         name = f'v{len(dts)}'
         if kind == 'clock':
             stmts.append(ir.st_expr(ir.call('hostClock', lit(op[1]))))
+        elif kind == 'zone':
+            stmts.append(ir.st_expr(ir.call('hostZone', ir.s(op[1]))))
         elif kind == 'now':
             stmts.append(ir.st_expr(ir.call('datetimeNow'), name))
             obs(f'{ix}:now', ir.var(name))
@@ -578,9 +594,20 @@ def run(plan, stats):
             stats.faults['clock_jump'] += 1
         return None
 
+    def host_zone(args, options):
+        # the embedding application changes the process zone between two library calls
+        nonlocal zone, zi, trans
+        zone = args[0]
+        set_zone(zone)
+        zi = zoneinfo.ZoneInfo(zone)
+        trans = []
+        stats.faults['tz_change_mid_run'] += 1
+        return None
+
     globals_ = dict(host_values)
     globals_['hostObserve'] = host_observe
     globals_['hostClock'] = host_clock
+    globals_['hostZone'] = host_zone
     options = SimOptions({'globals': globals_, 'maxStatements': 100000})
     saved = lib.datetime
     err = None
@@ -596,7 +623,7 @@ def run(plan, stats):
     if harness:
         from ..core import HarnessError
         raise HarnessError('oracle failed: ' + harness[0])
-    stats.faults['tz_config:' + zone] += 1
+    stats.faults['tz_config:' + plan['zone']] += 1
     stats.c['simulated_clock_ms'] += (clock.us - clock.first) // 1000
     if err is not None and not viols:
         fail('parse' if err[0] == 'host' else 'run', f'script-ended-with-{err[1] if err[0] == "host" else "runtime-error"}',
@@ -629,7 +656,7 @@ def simplify(plan, v):
     an operation is replaced by a no-op clock step instead of being deleted)."""
     out = []
     for ix, op in enumerate(plan['ops']):
-        if op[0] in ('diff', 'iso', 'parse'):
+        if op[0] in ('diff', 'iso', 'parse', 'zone'):
             c = copy.deepcopy(plan)
             c['ops'][ix] = ['clock', 0]
             if c['ops'] != plan['ops']:
